@@ -506,12 +506,18 @@ Proof.
                (fun id => MPublish id uri a kw match o with Some p => po_ack p | None => None end
                                    match o with Some p => po_exclude_me p | None => None end) false H).
     + unfold new_id_only. destruct (send_req cfg _ _). simpl. eapply Inv_ext; [|exact H]. reflexivity.
-  - destruct (negb (transport s)); [assumption|]. keep_request X H KSubscribe (@None call_opts) uri.
-  - destruct (negb (transport s)); [assumption|]. keep_request X H KRegister (@None call_opts) uri.
+  - destruct (negb (transport s)); [assumption|].
+    exact (Inv_request_sent X cfg s KSubscribe None uri
+             (fun id => MSubscribe id uri match o with Some c => opt_default (so_match c) | None => 0 end
+                                   match o with Some c => so_get_retained c | None => None end) false H).
+  - destruct (negb (transport s)); [assumption|].
+    exact (Inv_request_sent X cfg s KRegister None uri
+             (fun id => MRegister id uri match o with Some c => opt_default (ro_match c) | None => 0 end
+                                  match o with Some c => opt_default (ro_invoke c) | None => 0 end) false H).
   - destruct (reg_id_of s h) as [regid|]; [|assumption].
     destruct (assoc regid (regs s)) as [h'|]; [|assumption].
     destruct (negb (h' =? h)); [assumption|]. destruct (negb (transport s)); [assumption|].
-    keep_request X H KUnregister (@None call_opts) regid.
+    exact (Inv_request_sent X cfg s KUnregister None regid (fun id => MUnregister id regid) false H).
 Qed.
 
 Lemma api_step_done : forall cfg s o, done (fst (api_step cfg s o)) = done s.
@@ -521,11 +527,11 @@ Proof.
     destruct (send_req cfg _ _) as [o1 ok]. destruct ok; reflexivity.
   - destruct (negb (transport s)); [reflexivity|]. destruct (po_wants_ack o); unfold new_request, new_id_only; cbv zeta beta iota;
       destruct (send_req cfg _ _) as [o1 ok]; destruct ok; reflexivity.
-  - destruct (negb (transport s)); [reflexivity|]. unfold new_request. cbv zeta beta iota. destruct (send_req cfg _ _). reflexivity.
-  - destruct (negb (transport s)); [reflexivity|]. unfold new_request. cbv zeta beta iota. destruct (send_req cfg _ _). reflexivity.
+  - destruct (negb (transport s)); [reflexivity|]. unfold new_request. cbv zeta beta iota. destruct (send_req cfg _ _) as [? []]; reflexivity.
+  - destruct (negb (transport s)); [reflexivity|]. unfold new_request. cbv zeta beta iota. destruct (send_req cfg _ _) as [? []]; reflexivity.
   - destruct (reg_id_of s h); [|reflexivity]. destruct (assoc n (regs s)); [|reflexivity].
     destruct (negb (n0 =? h)); [reflexivity|]. destruct (negb (transport s)); [reflexivity|].
-    unfold new_request. cbv zeta beta iota. destruct (send_req cfg _ _). reflexivity.
+    unfold new_request. cbv zeta beta iota. destruct (send_req cfg _ _) as [? []]; reflexivity.
 Qed.
 
 Lemma Inv_react : forall (X : N -> Prop) cfg s f, Inv X s -> Inv X (fst (react cfg s f)).
@@ -705,7 +711,7 @@ Proof.
   - now apply Inv_run_leaf.
   - destruct (u_connect cfg); [|assumption]. destruct (sid_truthy s); [assumption|].
     destruct (negb (transport s)); [assumption|].
-    destruct (send cfg (set_goodbye s false) MHello). simpl. eapply Inv_ext; [|exact H]. reflexivity.
+    destruct (send cfg (set_join s) MHello). simpl. eapply Inv_ext; [|exact H]. reflexivity.
   - destruct o.
     + destruct (transport s).
       * pose proof (Inv_defer_leaf fl cfg none (set_sdetails (set_sid s (Some sidv)) (Some sidv)) LJoin) as HJ.
@@ -825,7 +831,7 @@ Proof.
     set (s0 := set_subs s (assoc_set subid rest (subs s))).
     assert (H0 : Inv none s0) by (eapply Inv_ext; [|exact H]; reflexivity).
     destruct rest as [|x rest'].
-    + keep_request none H0 KUnsubscribe (@None call_opts) subid.
+    + exact (Inv_request_sent none cfg s0 KUnsubscribe None subid (fun id => MUnsubscribe id subid) false H0).
     + (* a fresh, already completed future *)
       set (f := next_fut s0).
       set (s1 := set_newreq s0 (next_id s0) (pend s0) (f + 1) (issued s0) (lost s0)).
@@ -1304,16 +1310,20 @@ Qed.
 (* ---------------------------------------------------------------------------------------------------------- *)
 (* request ids over whole histories                                                                           *)
 (* ---------------------------------------------------------------------------------------------------------- *)
-Definition req_id_of_msg (m : wmsg) : option N :=
+(* what matters for request ids in a history: a request message bearing id i, and HELLO (join() starts the ids of
+   the new session at 1 again) *)
+Inductive idev := IdReq (i : N) | IdJoin.
+Definition req_id_of_msg (m : wmsg) : option idev :=
   match m with
   | MPublish id _ _ _ _ _ | MSubscribe id _ _ _ | MUnsubscribe id _ | MCall id _ _ _ _ _ | MRegister id _ _ _
-  | MUnregister id _ => Some id
+  | MUnregister id _ => Some (IdReq id)
+  | MHello => Some IdJoin
   | _ => None
   end.
-(* a request message handed to ITransport.send(), whether send() returned, raised or silently dropped it *)
-Definition req_id_of (e : out) : option N :=
+(* a message handed to ITransport.send(), whether send() returned, raised or silently dropped it *)
+Definition req_id_of (e : out) : option idev :=
   match e with Sent m | SendFailed m | Dropped m => req_id_of_msg m | _ => None end.
-Definition request_ids (t : list out) : list N :=
+Definition request_ids (t : list out) : list idev :=
   flat_map (fun e => match req_id_of e with Some i => [i] | None => [] end) t.
 
 Lemma request_ids_app : forall a b, request_ids (a ++ b) = request_ids a ++ request_ids b.
@@ -1321,12 +1331,16 @@ Proof. intros. unfold request_ids. apply flat_map_app. Qed.
 
 (* the ids of the request messages of [o] are the successive values of the generator, from the state of [s] to the
    state of [s'] *)
-Fixpoint id_chain (n : N) (l : list N) : option N :=
-  match l with [] => Some n | i :: t => if i =? idgen_next n then id_chain i t else None end.
+Fixpoint id_chain (n : N) (l : list idev) : option N :=
+  match l with
+  | [] => Some n
+  | IdReq i :: t => if i =? idgen_next n then id_chain i t else None
+  | IdJoin :: t => id_chain 0 t
+  end.
 Definition NR (s s' : sess) (o : list out) : Prop := id_chain (next_id s) (request_ids o) = Some (next_id s').
 
 Lemma id_chain_app : forall a b n, id_chain n (a ++ b) = match id_chain n a with Some m => id_chain m b | None => None end.
-Proof. induction a as [|i t IH]; simpl; intros b n; [reflexivity|]. destruct (i =? idgen_next n); [apply IH | reflexivity]. Qed.
+Proof. induction a as [|[i|] t IH]; simpl; intros b n; [reflexivity| |apply IH]. destruct (i =? idgen_next n); [apply IH | reflexivity]. Qed.
 
 Lemma NR_refl : forall s, NR s s [].
 Proof. reflexivity. Qed.
@@ -1355,12 +1369,12 @@ Lemma send_req_nr : forall cfg s m, req_id_of_msg m = None -> request_ids (fst (
 Proof. intros cfg s m H. unfold send_req. destruct (failnext s); [simpl; rewrite H; reflexivity | now apply send_nr]. Qed.
 
 Lemma new_request_sent_ids : forall cfg s k co t (mk : N -> wmsg) (keep : bool) tail_ok tail_bad,
-  (forall id, req_id_of_msg (mk id) = Some id) -> request_ids tail_ok = [] -> request_ids tail_bad = [] ->
+  (forall id, req_id_of_msg (mk id) = Some (IdReq id)) -> request_ids tail_ok = [] -> request_ids tail_bad = [] ->
   let r := (let '(s1, id, f) := new_request s k co t in
             let '(o1, ok) := send_req cfg s1 (mk id) in
             if ok then (s1, o1 ++ tail_ok)
             else ((if keep then s1 else drop_request s1 k id f), o1 ++ tail_bad)) in
-  request_ids (snd r) = [idgen_next (next_id s)] /\ next_id (fst r) = idgen_next (next_id s).
+  request_ids (snd r) = [IdReq (idgen_next (next_id s))] /\ next_id (fst r) = idgen_next (next_id s).
 Proof.
   intros cfg s k co t mk keep tail_ok tail_bad Hmk Hok Hbad. unfold new_request. cbv zeta beta iota.
   unfold send_req, send. cbn [topen transport set_newreq failnext].
@@ -1369,7 +1383,7 @@ Proof.
     try (split; reflexivity); destruct keep; split; reflexivity.
 Qed.
 
-Lemma NR_one : forall s s' o, request_ids o = [idgen_next (next_id s)] -> next_id s' = idgen_next (next_id s) -> NR s s' o.
+Lemma NR_one : forall s s' o, request_ids o = [IdReq (idgen_next (next_id s))] -> next_id s' = idgen_next (next_id s) -> NR s s' o.
 Proof. intros s s' o A B. unfold NR. rewrite A, B. simpl. rewrite N.eqb_refl. reflexivity. Qed.
 
 Lemma NR_api_step : forall cfg s o, NR s (fst (api_step cfg s o)) (snd (api_step cfg s o)).
@@ -1503,8 +1517,8 @@ Proof.
   - apply NR_run_leaf.
   - destruct (u_connect cfg); [|apply NR_quiet; reflexivity]. destruct (sid_truthy s); [apply NR_quiet; reflexivity|].
     destruct (negb (transport s)); [apply NR_quiet; reflexivity|].
-    pose proof (send_nr cfg (set_goodbye s false) MHello eq_refl) as Hs.
-    destruct (send cfg (set_goodbye s false) MHello) as [o ok]. simpl in *. apply NR_quiet; [assumption | reflexivity].
+    (* join(): HELLO, and the ids start again *)
+    unfold NR, send. destruct (topen (set_join s)); [|destruct (t_lenient cfg && transport (set_join s))]; reflexivity.
   - destruct o.
     + destruct (transport s).
       * eapply NR_from; [|apply NR_defer_leaf]. reflexivity.
@@ -1674,14 +1688,16 @@ Proof.
   - (* AReact *) destruct (is_react_op o && negb (is_done s f) && isNoneB (assoc f (reacts s))); apply NR_quiet; reflexivity.
 Qed.
 
-Lemma id_chain_iter : forall l k x, id_chain (idgen_iter k) l = Some x ->
-  l = map idgen_iter (seq (S k) (length l)) /\ x = idgen_iter (k + length l).
+Definition is_req (e : idev) : bool := match e with IdReq _ => true | IdJoin => false end.
+
+Lemma id_chain_iter : forall l k x, forallb is_req l = true -> id_chain (idgen_iter k) l = Some x ->
+  l = map (fun j => IdReq (idgen_iter j)) (seq (S k) (length l)) /\ x = idgen_iter (k + length l).
 Proof.
-  induction l as [|i t IH]; simpl; intros k x H.
+  induction l as [|[i|] t IH]; simpl; intros k x Hr H; [| |discriminate].
   - inversion H. rewrite Nat.add_0_r. split; reflexivity.
   - destruct (i =? idgen_next (idgen_iter k)) eqn:E; [|discriminate]. apply N.eqb_eq in E.
     assert (Ei : i = idgen_iter (S k)) by (simpl; exact E). rewrite Ei in H.
-    destruct (IH (S k) x H) as [A B]. split.
+    destruct (IH (S k) x Hr H) as [A B]. split.
     + rewrite Ei. f_equal. exact A.
     + rewrite B. f_equal. lia.
 Qed.
@@ -1693,11 +1709,28 @@ Proof.
   specialize (IH s1). destruct (run fl cfg s1 t) as [s2 tr]. simpl in *. eapply NR_trans; eassumption.
 Qed.
 
-Theorem request_ids_sequential : forall fl cfg ops,
-  request_ids (trace fl cfg ops) = map idgen_iter (seq 1 (length (request_ids (trace fl cfg ops)))).
+(* request ids are in session scope: the request messages between a HELLO and the next HELLO (or any prefix of them)
+   carry 1, 2, 3, ... *)
+Theorem request_ids_sequential : forall fl cfg ops a b c,
+  request_ids (trace fl cfg ops) = a ++ IdJoin :: b ++ c -> forallb is_req b = true ->
+  b = map (fun j => IdReq (idgen_iter j)) (seq 1 (length b)).
 Proof.
-  intros. pose proof (run_NR fl cfg ops init) as H. unfold NR in H.
-  exact (proj1 (id_chain_iter _ 0%nat _ H)).
+  intros fl cfg ops a b c Heq Hb. pose proof (run_NR fl cfg ops init) as H. unfold NR in H.
+  change (concat (snd (run fl cfg init ops))) with (trace fl cfg ops) in H. rewrite Heq, id_chain_app in H.
+  destruct (id_chain (next_id init) a); [|discriminate]. simpl in H. rewrite id_chain_app in H.
+  destruct (id_chain 0 b) as [x|] eqn:E; [|discriminate].
+  exact (proj1 (id_chain_iter b 0%nat x Hb E)).
+Qed.
+
+(* ... and so do the requests of an object that has not said HELLO yet *)
+Theorem request_ids_sequential_unjoined : forall fl cfg ops b c,
+  request_ids (trace fl cfg ops) = b ++ c -> forallb is_req b = true ->
+  b = map (fun j => IdReq (idgen_iter j)) (seq 1 (length b)).
+Proof.
+  intros fl cfg ops b c Heq Hb. pose proof (run_NR fl cfg ops init) as H. unfold NR in H.
+  change (concat (snd (run fl cfg init ops))) with (trace fl cfg ops) in H. rewrite Heq, id_chain_app in H.
+  destruct (id_chain (next_id init) b) as [x|] eqn:E; [|discriminate].
+  exact (proj1 (id_chain_iter b 0%nat x Hb E)).
 Qed.
 
 (* ---------------------------------------------------------------------------------------------------------- *)
@@ -2574,8 +2607,8 @@ Proof.
   intros fl cfg s t. destruct t as [l| |o sidv|o]; simpl.
   - apply pe_run_leaf.
   - destruct (u_connect cfg); [|reflexivity]. destruct (sid_truthy s); [reflexivity|].
-    destruct (negb (transport s)); [reflexivity|]. pose proof (pe_send cfg (set_goodbye s false) MHello) as Hs.
-    destruct (send cfg (set_goodbye s false) MHello) as [o ok]. simpl in *. apply (pe_app [Called CbConnect]); [reflexivity | assumption].
+    destruct (negb (transport s)); [reflexivity|]. pose proof (pe_send cfg (set_join s) MHello) as Hs.
+    destruct (send cfg (set_join s) MHello) as [o ok]. simpl in *. apply (pe_app [Called CbConnect]); [reflexivity | assumption].
   - destruct o.
     + destruct (transport s); [apply pe_defer_leaf | destruct fl; reflexivity].
     + destruct (transport s); [|destruct fl; reflexivity].
@@ -2876,20 +2909,15 @@ Proof.
   induction l as [|x t IH]; simpl; intro H; [reflexivity|]. destruct (req_is k i x); [discriminate|]. rewrite IH by assumption. reflexivity.
 Qed.
 
-(* call() and publish() take the record back; the four other kinds have no try/except around send() *)
-Definition keeps_record (k : kind) : bool := match k with KCall | KPublish => false | _ => true end.
-
-(* whatever the exception: the API call raises it, nothing is sent, the id is consumed, no future is completed,
-   subscriptions / registrations / life-cycle untouched (except that _unsubscribe has already taken the handler off
-   its subscription); the request table is as the code leaves it *)
+(* every API path takes its record back when send() raises (call/publish always did; subscribe / register /
+   unsubscribe / unregister since 0e55772a) *)
 Theorem failed_send : forall fl cfg s e a k co t,
   transport s = true -> failnext s = None -> api_request s a = Some (k, co, t) ->
   let '(s1, o1) := step fl cfg s (AFail e a) in
   (exists m, o1 = [SendFailed m; ApiRaised e])
   /\ next_id s1 = idgen_next (next_id s) /\ done s1 = done s /\ failnext s1 = None /\ lcore s1 = lcore s
   /\ (k <> KUnsubscribe -> subs s1 = subs s) /\ regs s1 = regs s
-  /\ pend s1 = if keeps_record k then put_req (mkreq k (idgen_next (next_id s)) (next_fut s) co t) (pend s)
-               else remove_req k (idgen_next (next_id s)) (pend s).
+  /\ pend s1 = remove_req k (idgen_next (next_id s)) (pend s).
 Proof.
   intros fl cfg s e a k co t Ht Hfn Ha.
   destruct a; simpl in Ha; try discriminate.
@@ -2904,21 +2932,25 @@ Proof.
     exact (remove_put (mkreq KPublish (idgen_next (next_id s)) (next_fut s) None t) (pend s)).
   - inversion Ha; subst. unfold step. simpl is_fail_op. cbv iota. unfold api_step. simpl. rewrite Ht. simpl.
     unfold send_req, send_exn. simpl. unfold lcore. simpl. repeat split; try reflexivity; try (eexists; reflexivity).
+    exact (remove_put (mkreq KSubscribe (idgen_next (next_id s)) (next_fut s) None t) (pend s)).
   - inversion Ha; subst. unfold step. simpl is_fail_op. cbv iota. unfold api_step. simpl. rewrite Ht. simpl.
     unfold send_req, send_exn. simpl. unfold lcore. simpl. repeat split; try reflexivity; try (eexists; reflexivity).
+    exact (remove_put (mkreq KRegister (idgen_next (next_id s)) (next_fut s) None t) (pend s)).
   - destruct (sub_id_of s h) as [i|] eqn:Ei; [|discriminate]. destruct (assoc i (subs s)) as [[|h' [|? ?]]|] eqn:Eas; try discriminate.
     destruct (h' =? h) eqn:Eh; [|discriminate]. apply N.eqb_eq in Eh. subst h'. inversion Ha; subst.
     unfold step. simpl is_fail_op. cbv iota. unfold unsub_step.
     assert (E1 : sub_id_of (set_failnext s (Some e)) h = Some t) by exact Ei. rewrite E1. simpl. rewrite Eas. simpl.
     rewrite N.eqb_refl. simpl. rewrite Ht. simpl.
     unfold send_req, send_exn. simpl. unfold lcore. simpl. repeat split; try reflexivity; try (eexists; reflexivity).
-    intro Hx; exfalso; apply Hx; reflexivity.
+    + intro Hx; exfalso; apply Hx; reflexivity.
+    + exact (remove_put (mkreq KUnsubscribe (idgen_next (next_id s)) (next_fut s) None t) (pend s)).
   - destruct (reg_id_of s h) as [i|] eqn:Ei; [|discriminate]. destruct (assoc i (regs s)) as [h'|] eqn:Eas; [|discriminate].
     destruct (h' =? h) eqn:Eh; [|discriminate]. apply N.eqb_eq in Eh. subst h'. inversion Ha; subst.
     unfold step. simpl is_fail_op. cbv iota. unfold api_step.
     assert (E1 : reg_id_of (set_failnext s (Some e)) h = Some t) by exact Ei. rewrite E1. simpl. rewrite Eas.
     rewrite N.eqb_refl. simpl. rewrite Ht. simpl.
     unfold send_req, send_exn. simpl. unfold lcore. simpl. repeat split; try reflexivity; try (eexists; reflexivity).
+    exact (remove_put (mkreq KUnregister (idgen_next (next_id s)) (next_fut s) None t) (pend s)).
 Qed.
 
 (* publish() without acknowledge has no record and no future: the id is consumed, nothing else changes *)
@@ -2932,34 +2964,30 @@ Proof.
   unfold send_req, send_exn. simpl. unfold lcore. simpl. repeat split; try reflexivity. eexists; reflexivity.
 Qed.
 
-(* call / publish: the failed call left no trace in the tables, so a router message bearing the id it consumed is a
+(* all six kinds: the failed call left no trace in the tables, so a router message bearing the id it consumed is a
    protocol violation like any other reply nobody waits for *)
 Theorem failed_send_reply_is_violation : forall fl cfg s e a r v k co t c,
   transport s = true -> sid s = Some v -> failnext s = None ->
-  api_request s a = Some (k, co, t) -> keeps_record k = false ->
+  api_request s a = Some (k, co, t) ->
   reply_spec r = Some (k, idgen_next (next_id s), c) -> find_req k (idgen_next (next_id s)) (pend s) = None ->
   let '(s1, o1) := step fl cfg s (AFail e a) in
   (exists m, o1 = [SendFailed m; ApiRaised e]) /\ pend s1 = pend s /\ step fl cfg s1 r = (s1, [Raised XProtocolError]).
 Proof.
-  intros fl cfg s e a r v k co t c Ht Hs Hfn Ha Hk Hr Hf.
+  intros fl cfg s e a r v k co t c Ht Hs Hfn Ha Hr Hf.
   pose proof (failed_send fl cfg s e a k co t Ht Hfn Ha) as H. destruct (step fl cfg s (AFail e a)) as [s1 o1].
-  destruct H as [Ho [_ [_ [_ [Hc [_ [_ Hp]]]]]]]. rewrite Hk in Hp. rewrite (remove_req_absent _ _ _ Hf) in Hp.
+  destruct H as [Ho [_ [_ [_ [Hc [_ [_ Hp]]]]]]]. rewrite (remove_req_absent _ _ _ Hf) in Hp.
   split; [exact Ho|]. split; [exact Hp|].
   unfold lcore in Hc. inversion Hc as [[C1 C2 C3 C4]].
   apply (reply_unknown fl cfg s1 r v k (idgen_next (next_id s)) c); [congruence | congruence | exact Hr | rewrite Hp; exact Hf].
 Qed.
 
-(* subscribe / register / unsubscribe / unregister: "a later reply with that id is a protocol violation" is FALSE:
-   the record of the call that raised stays, the reply is matched silently and (here) creates a Registration for a
-   register() call whose caller saw an exception *)
-Theorem failed_send_reply_refuted_record_left :
-  exists cfg ops, In (ApiRaised XPayloadExceeded) (trace Tx cfg ops) /\ ~ In (Raised XProtocolError) (trace Tx cfg ops)
-                  /\ regs (final Tx cfg ops) <> [].
-Proof.
-  exists default_cfg, [OOpen; RWelcome 1; AFail XPayloadExceeded (ARegister 1 None); RRegistered 1 58].
-  vm_compute. repeat split; auto 10; try discriminate.
-  intro H; repeat (destruct H as [H|H]; try discriminate H); contradiction.
-Qed.
+(* regression example (before 0e55772a the record of the failed register() stayed, REGISTERED 1 58 was accepted
+   silently and created a Registration): *)
+Theorem failed_send_register_example :
+  let ops := [OOpen; RWelcome 1; AFail XPayloadExceeded (ARegister 1 None); RRegistered 1 58] in
+  In (ApiRaised XPayloadExceeded) (trace Tx default_cfg ops) /\ In (Raised XProtocolError) (trace Tx default_cfg ops)
+  /\ regs (final Tx default_cfg ops) = [] /\ pend (final Tx default_cfg ops) = [].
+Proof. vm_compute. repeat split; auto 10. Qed.
 
 (* the freshness hypothesis of [reply_during_send] holds in every reachable state *)
 Theorem fresh_future_not_done : forall fl cfg ops, is_done (final fl cfg ops) (next_fut (final fl cfg ops)) = false.
@@ -3015,11 +3043,11 @@ Proof.
       destruct (send_req cfg _ _) as [o1 ok]. destruct ok; simpl; lia.
     + destruct (negb (transport s)); [simpl; lia|]. destruct (po_wants_ack o); unfold new_request, new_id_only; cbv zeta beta iota;
         destruct (send_req cfg _ _) as [o1 ok]; destruct ok; simpl; lia.
-    + destruct (negb (transport s)); [simpl; lia|]. unfold new_request. cbv zeta beta iota. destruct (send_req cfg _ _). simpl. lia.
-    + destruct (negb (transport s)); [simpl; lia|]. unfold new_request. cbv zeta beta iota. destruct (send_req cfg _ _). simpl. lia.
+    + destruct (negb (transport s)); [simpl; lia|]. unfold new_request. cbv zeta beta iota. destruct (send_req cfg _ _) as [o1 ok]. destruct ok; simpl; lia.
+    + destruct (negb (transport s)); [simpl; lia|]. unfold new_request. cbv zeta beta iota. destruct (send_req cfg _ _) as [o1 ok]. destruct ok; simpl; lia.
     + destruct (reg_id_of s h); [|simpl; lia]. destruct (assoc n (regs s)); [|simpl; lia].
       destruct (negb (n0 =? h)); [simpl; lia|]. destruct (negb (transport s)); [simpl; lia|].
-      unfold new_request. cbv zeta beta iota. destruct (send_req cfg _ _). simpl. lia.
+      unfold new_request. cbv zeta beta iota. destruct (send_req cfg _ _) as [o1 ok]. destruct ok; simpl; lia.
   - assert (Hput : forall k co t r', In r' (put_req (mkreq k (idgen_next (next_id s)) (next_fut s) co t) (pend s)) ->
                    In r' (pend s) \/ next_fut s <= r_fut r').
     { intros k co t r' Hr. destruct (put_req_sub _ _ _ Hr) as [->|Hr']; [right; simpl; lia | now left]. }
@@ -3029,12 +3057,12 @@ Proof.
     + destruct (negb (transport s)); [now left|]. destruct (po_wants_ack o); unfold new_request, new_id_only in Hr; cbv zeta beta iota in Hr;
         destruct (send_req cfg _ _) as [o1 ok]; destruct ok; simpl in Hr; try (now left); [|apply remove_req_in in Hr]; eapply Hput; exact Hr.
     + destruct (negb (transport s)); [now left|]. unfold new_request in Hr. cbv zeta beta iota in Hr.
-      destruct (send_req cfg _ _). simpl in Hr. eapply Hput; exact Hr.
+      destruct (send_req cfg _ _) as [o1 ok]. destruct ok; simpl in Hr; [|apply remove_req_in in Hr]; eapply Hput; exact Hr.
     + destruct (negb (transport s)); [now left|]. unfold new_request in Hr. cbv zeta beta iota in Hr.
-      destruct (send_req cfg _ _). simpl in Hr. eapply Hput; exact Hr.
+      destruct (send_req cfg _ _) as [o1 ok]. destruct ok; simpl in Hr; [|apply remove_req_in in Hr]; eapply Hput; exact Hr.
     + destruct (reg_id_of s h); [|now left]. destruct (assoc n (regs s)); [|now left].
       destruct (negb (n0 =? h)); [now left|]. destruct (negb (transport s)); [now left|].
-      unfold new_request in Hr. cbv zeta beta iota in Hr. destruct (send_req cfg _ _). simpl in Hr. eapply Hput; exact Hr.
+      unfold new_request in Hr. cbv zeta beta iota in Hr. destruct (send_req cfg _ _) as [o1 ok]. destruct ok; simpl in Hr; [|apply remove_req_in in Hr]; eapply Hput; exact Hr.
   - intro Ht. destruct o; try reflexivity; unfold api_step; rewrite ?Ht; try reflexivity.
     destruct (reg_id_of s h); [|reflexivity]. destruct (assoc n (regs s)); [|reflexivity].
     destruct (negb (n0 =? h)); reflexivity.
@@ -3396,7 +3424,7 @@ Proof.
   intros. unfold unsub_step. destruct (sub_id_of s h) as [subid|]; [|reflexivity]. destruct (negb (memN h _)); [reflexivity|].
   destruct (negb (transport s)); [reflexivity|].
   destruct (remove1 h match assoc subid (subs s) with Some l => l | None => [] end) as [|x rest'].
-  - unfold new_request. cbv zeta beta iota. destruct (send_req cfg _ _) as [o1 ok]. reflexivity.
+  - unfold new_request. cbv zeta beta iota. destruct (send_req cfg _ _) as [o1 ok]. destruct ok; reflexivity.
   - match goal with |- context [complete fl cfg ?S ?F ?R] =>
       pose proof (fn_complete fl cfg S F R) as Hc; destruct (complete fl cfg S F R) as [s2 o2] end. exact Hc.
 Qed.
